@@ -351,4 +351,80 @@ def fitModelCv {π : Type} (hs : HyperSearch ρ θ π) (needsCv : Bool) (est : E
   else ((startLabels le thr targets cols cfg.direction).map
           (runFromCv hs needsCv est le thr cfg th0 rows targets)).getD ⟨[], needsCv, ⟨.noStart, [], none⟩⟩
 
+/-! ## `_get_scores`: which method of the estimator supplies the scores
+
+Called at model.py:313 (inside the training loop) and model.py:238 (`decision_function`).
+`Est.score` above is the per-row view of what this function returns; here the dispatch itself
+is modelled on the *outputs* of the estimator's methods. -/
+
+/-- the shapes `np.asarray(model.predict_proba(feat))` can have: `(n,)`, `(n, width)`, three or
+more axes.  In `mat width rows` every row has length `width` (`ProbaOut.WF`). -/
+inductive ProbaOut (α : Type) where
+  | vec (v : List α)
+  | mat (width : Nat) (rows : List (List α))
+  | higher
+
+/-- the two ways `_get_scores` fails: `scores[:, 1]` on a matrix without columns (`IndexError`),
+`RuntimeError("'predict_proba' returned too many dimensions.")` -/
+inductive ScoreErr where
+  | indexError | tooManyDims
+  deriving DecidableEq, Repr
+
+/-- `scores[:, j]` of a row-major matrix -/
+def colOf (j : Nat) (rows : List (List α)) : List α := rows.filterMap (fun r => r[j]?)
+
+/-- the `except AttributeError:` branch: a single column is that column, otherwise column 1 of a
+matrix, a vector as it is.  src: mokapot/model.py:717-727 -/
+def probaScores : ProbaOut α → Except ScoreErr (List α)
+  | .vec v => .ok v
+  | .mat w rows => if w = 1 then .ok (colOf 0 rows) else if w = 0 then .error .indexError else .ok (colOf 1 rows)
+  | .higher => .error .tooManyDims
+
+/-- `_get_scores(model, feat)`: `decision` is the result of `model.decision_function(feat)` when the
+estimator has that method (`none` = `AttributeError`), `proba` the result of `predict_proba`.
+src: mokapot/model.py:692-727 -/
+def getScores (decision : Option (List α)) (proba : ProbaOut α) : Except ScoreErr (List α) :=
+  (decision.map Except.ok).getD (probaScores proba)
+
+/-- the output has one entry per scored row, and a matrix is rectangular -/
+def ProbaOut.WF (n : Nat) : ProbaOut α → Prop
+  | .vec v => v.length = n
+  | .mat w rows => rows.length = n ∧ ∀ r ∈ rows, r.length = w
+  | .higher => True
+
+/-- the same output with its rows taken in the order `idx` (numpy `out[idx]`) -/
+def ProbaOut.gatherRows (idx : List Nat) : ProbaOut α → ProbaOut α
+  | .vec v => .vec (gather v idx)
+  | .mat w rows => .mat w (gather rows idx)
+  | .higher => .higher
+
+/-- *specification* of the score of row `i`: the decision value if the estimator has a
+`decision_function`; otherwise the entry of a vector, the only entry of a one-column row, the
+second entry (class 1) of a wider row -/
+def scoreAt (decision : Option (List α)) (proba : ProbaOut α) (i : Nat) : Option α :=
+  (decision.map (fun d => d[i]?)).getD (probaAt proba i)
+where
+  /-- the `predict_proba` part -/
+  probaAt : ProbaOut α → Nat → Option α
+    | .vec v, i => v[i]?
+    | .mat w rows, i => (rows[i]?).bind (fun r => if w = 1 then r[0]? else r[1]?)
+    | .higher, _ => none
+
+/-! ## `Model.decision_function` with the scaler and the `is_trained` guard -/
+
+inductive PredErr where
+  | notFitted | featMismatch
+  deriving DecidableEq, Repr
+
+/-- `Model.decision_function(psms)`: `NotFittedError` for an untrained model, `ValueError` for another
+set of feature names; the columns are selected *by stored name* first and the scaler —
+`transform`, an arbitrary function of the positional row-major matrix, fitted on the training
+column order — is applied to the selected matrix; the estimator scores the result row by row.
+src: mokapot/model.py:224-238 -/
+def predictScaled [DecidableEq ν] (trained : Bool) (transform : List (List β) → List (List β))
+    (score : List β → α) (stored : List ν) (n : Nat) (cols : List (ν × List β)) : Except PredErr (List α) :=
+  if trained = false then .error .notFitted
+  else ((selectByName stored cols).map (fun sel => Except.ok ((transform (rowsOf n sel)).map score))).getD
+    (.error .featMismatch)
+
 end Mk.Fit
